@@ -168,7 +168,9 @@ func bigBlock(t *testing.T, run *core.Run, name string, rng *rand.Rand) {
 	const nTx = 5003
 	w, err := node.NewWorld(rng, node.WorldOpts{Nodes: 2, GenesisVals: 3, Users: 4, UserFunds: 50_000_000_000, Weights: map[string]int{"send": 1},
 		Params: func(p *fsm.Params, r *rand.Rand) { p.Consensus.BlockSize = 8 << 20 },
-		Tweak:  func(c *lib.Config) { c.MempoolConfig.MaxTransactionCount, c.MempoolConfig.MaxTotalBytes = 20000, 64 << 20 }})
+		Tweak: func(c *lib.Config) {
+			c.MempoolConfig.MaxTransactionCount, c.MempoolConfig.MaxTotalBytes = 20000, 64<<20
+		}})
 	if err != nil {
 		t.Fatalf("%s: world: %v", name, err)
 	}
